@@ -1,7 +1,63 @@
 import Driver.Common
-open Drv
+import KatdalModel.Model.LazyIndexer
+open Np Index Drv LazyIx
 
-/-- stub driver for C05: replaced when the property's model lands -/
-def step (_line : String) : String := "bad-op"
+def showPairs (l : List (Nat × Nat)) : String :=
+  if l.isEmpty then "-" else ",".intercalate (l.map fun (p, k) => s!"{p}:{k}")
+
+def showConcat (r : Except Err (Bool × List (Nat × Nat))) : String :=
+  match r with
+  | .ok (sc, l) => (if sc then "o " else "m ") ++ showPairs l
+  | .error e => showErr e
+
+/-- per-axis grammar test for a whole request -/
+def inGrammar (shape : List Nat) (k1 k2 : List Ix) : Bool :=
+  let k1p := padTrunc shape.length k1
+  let k2p := padTrunc shape.length k2
+  (List.zip shape (List.zip k1p k2p)).all fun (n, a, b) =>
+    stage1InG n a &&
+    (match initialShape1 n a with
+     | .ok n1 => stage2InG n1 b
+     | .error _ => false)
+
+def specAll : List Nat → List Ix → List Ix → Except Err (List Sel)
+  | [], [], [] => .ok []
+  | n :: ns, a :: as, b :: bs => do
+    let s ← spec1 n a b
+    let r ← specAll ns as bs
+    pure (s :: r)
+  | _, _, _ => .error .index
+
+/-- requests:
+    get <shape> <k1> <k2>      mirror model of LazyIndexer(src, k1)[k2]  -> per-axis selections
+    spec <shape> <k1> <k2>     numpy composition, prefixed by G1/G0 (inside the property's grammar or not)
+    ishape <shape> <k1>        `_initial_shape`
+    concat <lens> <ix>         ConcatenatedLazyIndexer head axis (mirror)
+    concatspec <lens> <ix>     spec -/
+def step (line : String) : String :=
+  match line.splitOn " " with
+  | ["get", sh, k1, k2] =>
+    match parseShape sh, parseIxTuple k1, parseIxTuple k2 with
+    | some sh, some k1, some k2 => showExcept showSels (getitem sh k1 k2)
+    | _, _, _ => "bad-op"
+  | ["spec", sh, k1, k2] =>
+    match parseShape sh, parseIxTuple k1, parseIxTuple k2 with
+    | some sh, some k1, some k2 =>
+      let g := if inGrammar sh k1 k2 then "G1 " else "G0 "
+      g ++ showExcept showSels (specAll sh (padTrunc sh.length k1) (padTrunc sh.length k2))
+    | _, _, _ => "bad-op"
+  | ["ishape", sh, k1] =>
+    match parseShape sh, parseIxTuple k1 with
+    | some sh, some k1 => showExcept showShape (initialShape sh (padTrunc sh.length k1))
+    | _, _ => "bad-op"
+  | ["concat", lens, ix] =>
+    match parseNatList lens, parseIx ix with
+    | some lens, some ix => showConcat (concatHead lens ix)
+    | _, _ => "bad-op"
+  | ["concatspec", lens, ix] =>
+    match parseNatList lens, parseIx ix with
+    | some lens, some ix => showConcat (concatSpec lens ix)
+    | _, _ => "bad-op"
+  | _ => "bad-op"
 
 def main : IO Unit := Drv.loop step
